@@ -112,6 +112,7 @@ func c09Line(work, line string, yml bool, tag string, lineNo int, r *rng, every,
 		sow      int
 		lastIdx  int
 		stages   [10]int
+		stageDoy [10]int
 		active   bool
 		crop     string
 		variety  string
@@ -172,6 +173,15 @@ func c09Line(work, line string, yml bool, tag string, lineNo int, r *rng, every,
 					hermes.ReadCropParamClassic(pn, &shadow, &g2)
 				}
 				shadowOK = sameFs(g2.TSUM[:], g.TSUM[:]) && sameFs(g2.BAS[:], g.BAS[:]) && g2.NRKOM == g.NRKOM
+				if !g2.DAUERKULT {
+					// the real reader run on the copy: the stage days of the crop before must be cleared (initial state of the stage model)
+					for k := 0; k < 10; k++ {
+						if g2.DEV[k] != 0 {
+							ofail(g, zeit, "stage-days-not-cleared-by-reader", "stage=%d DEV=%d", k+1, g2.DEV[k])
+							break
+						}
+					}
+				}
 				if !shadowOK {
 					shadowLost++
 					emit(jobj{"k": "shadow-lost", "line": lineNo, "zeit": zeit, "why": "parameter read differs"})
@@ -181,12 +191,21 @@ func c09Line(work, line string, yml bool, tag string, lineNo int, r *rng, every,
 					// standing crop back to stage 1 (development runs backwards)
 					ofail(g, zeit, "stage-decreased", "resown-while-standing first-sowing=%s stage-before=%d stage-now=%d", g.Kalender(tr.sow), tr.lastIdx+1, g.INTWICK.Index+1)
 				}
+				if !g.DAUERKULT {
+					// the per-crop reset at sowing: no stage day of a stage this crop has not reached may survive from the crop before
+					for k := g.INTWICK.Index + 1; k < 10; k++ {
+						if k >= 1 && g.DEV[k] != 0 {
+							ofail(g, zeit, "stage-day-not-reset-at-sowing", "stage=%d DEV=%d", k+1, g.DEV[k])
+							break
+						}
+					}
+				}
 				tr = cropTrack{akf: ai, sow: zeit, lastIdx: g.INTWICK.Index, active: true, crop: crop, variety: pre.CVARIETY[ai]}
 				tr.stages[0] = zeit
 				if g.INTWICK.Index > 0 {
 					// stage reached on the sowing day itself
 					for k := 1; k <= g.INTWICK.Index && k < 10; k++ {
-						tr.stages[k] = zeit
+						tr.stages[k], tr.stageDoy[k] = zeit, g.TAG.Index+1
 					}
 				}
 			}
@@ -223,7 +242,7 @@ func c09Line(work, line string, yml bool, tag string, lineNo int, r *rng, every,
 				}
 				if g.INTWICK.Index > tr.lastIdx {
 					for k := tr.lastIdx + 1; k <= g.INTWICK.Index && k < 10; k++ {
-						tr.stages[k] = zeit
+						tr.stages[k], tr.stageDoy[k] = zeit, g.TAG.Index+1
 					}
 					if g.DEV[g.INTWICK.Index] != g.TAG.Index+1 {
 						ofail(g, zeit, "stage-date-not-today", "stage=%d DEV=%d doy=%d", g.INTWICK.Index, g.DEV[g.INTWICK.Index], g.TAG.Index+1)
@@ -252,6 +271,16 @@ func c09Line(work, line string, yml bool, tag string, lineNo int, r *rng, every,
 				if zeit < last {
 					ofail(g, zeit, "phenology-order", "harvest=%d before stage date %d", zeit, last)
 				}
+				// the stage days the crop record reports (DEV) are the days THIS crop reached the stages; a stage it did not reach is 0
+				wantDev := make([]int, 10)
+				for k := 1; k < 10; k++ {
+					if k <= tr.maxStage && tr.stages[k] > 0 {
+						wantDev[k] = tr.stageDoy[k]
+					}
+					if g.DEV[k] != wantDev[k] {
+						ofail(g, zeit, "stage-day-not-of-this-crop", "stage=%d reported-DOY=%d expected=%d (stage reached: %v) sown=%s", k+1, g.DEV[k], wantDev[k], k <= tr.maxStage, g.Kalender(tr.sow))
+					}
+				}
 				// season means of the crop record as nitro.go:327-328 forms them (sum / (ERNTE - SAAT))
 				nd := g.ERNTE[ai] - g.SAAT[ai]
 				rmean, tmean := g.REDUKSUM/float64(nd), g.TRRELSUM/float64(nd)
@@ -264,7 +293,7 @@ func c09Line(work, line string, yml bool, tag string, lineNo int, r *rng, every,
 					}
 				}
 				emit(jobj{"k": "crop", "line": lineNo, "tag": tag, "crop": tr.crop, "variety": tr.variety, "sow": tr.sow, "stages": st, "harvest": zeit,
-					"reduk_mean": rmean, "trrel_mean": tmean, "days": nd,
+					"reduk_mean": rmean, "trrel_mean": tmean, "days": nd, "want_dev": wantDev,
 					"dev": g.DEV[:], "doy": g.TAG.Index + 1, "sowdate": g.Kalender(tr.sow), "harvestdate": g.Kalender(zeit)})
 				tr.active = false
 			}
